@@ -6,6 +6,7 @@ import RV.Proofs.WHLink
 import RV.Proofs.WHDH
 import RV.Proofs.WHInt
 import RV.Proofs.TraceCom
+import RV.Proofs.WHJump
 /-
   C04 — isolated systems conserve momentum, angular momentum and (as advertised) energy;
   the diagnostics return the defined quantities.
@@ -444,6 +445,61 @@ theorem c04_dh_kepler_and_com (N : Nat) (m : Nat → K) (τ : K) (s s' : DS K) (
   ⟨keplerDH_conserves N m s s' hR hV h, comDH_conserves N m τ s⟩
 
 /-! ### merging collisions -/
+
+/-! ### the executable jump and com steps of WHFast (tied bitwise to `reb_whfast_jump_step` / `reb_whfast_com_step`) -/
+
+open RV.WH RV.WHJump in
+/-- `reb_whfast_jump_step`, democratic heliocentric case, as modelled on the array `p_jh`
+    (RV/Model/WHJump.lean, operation order of integrator_whfast.c:451-468; op `whjump dh` of drv_c04),
+    for every `N_active ≤ N`, every `N_real`, masses incl. zero, test particles: the centre-of-mass slot,
+    all masses and all velocities are untouched and every slot `1 ≤ i < N_real` is displaced by
+    `(dt/m_0) Σ_{1 ≤ k < N_active} m_k W_k` — the momentum sum runs over the massive bodies only, the
+    displacement reaches the test particles too. -/
+theorem c04_dh_jump_model (N nAct nReal : Nat) (hN : 1 ≤ N) (hA : nAct ≤ N) (m : Nat → K) (τ : K) (s : DS K) :
+    RV.WHJump.jumpDH τ nAct nReal (dsArr N m s)
+      = dsArr N m { s with Q := fun i => if i < nReal then s.Q i + (τ / m 0) • ∑ k ∈ Finset.Ico 1 nAct, m k • s.W k
+                                           else s.Q i } :=
+  jumpDH_model N nAct nReal hN hA m τ s
+
+open RV.WH RV.WHJump in
+/-- with every particle active the executable jump step IS the declarative one of `c04_dh_jump_step`, so the
+    code-level step conserves L and P and leaves the centre of mass alone. -/
+theorem c04_dh_jump_model_conserves (N : Nat) (hN : 1 ≤ N) (m : Nat → K) (τ : K) (s : DS K) :
+    RV.WHJump.jumpDH τ N N (dsArr N m s) = dsArr N m (RV.WH.jumpDH N m τ s)
+    ∧ LD N m (RV.WH.jumpDH N m τ s) = LD N m s ∧ PD N m (RV.WH.jumpDH N m τ s) = PD N m s
+    ∧ (RV.WH.jumpDH N m τ s).R = s.R ∧ (RV.WH.jumpDH N m τ s).V = s.V :=
+  ⟨jumpDH_model_active N hN m τ s, jump_conserves N m τ s⟩
+
+open RV.WH RV.WHJump in
+/-- `reb_whfast_com_step` on the array (op `whjump com`) is `R += dt·V`; it conserves L and P. -/
+theorem c04_wh_com_model (N : Nat) (hN : 1 ≤ N) (m : Nat → K) (τ : K) (s : DS K) :
+    RV.WHJump.comStep τ (dsArr N m s) = dsArr N m { s with R := s.R + τ • s.V }
+    ∧ LD N m { s with R := s.R + τ • s.V } = LD N m s ∧ PD N m { s with R := s.R + τ • s.V } = PD N m s :=
+  ⟨comStep_model N hN m τ s, comDH_conserves N m τ s⟩
+
+open RV.WH RV.WHJump in
+/-- `reb_whfast_jump_step`, WHDS case (integrator_whfast.c:469-493; op `whjump whds`), in closed form for every
+    `1 ≤ N_active ≤ N`, every `N_real`: with `p = Σ_{1≤k<N_active} m_k/(m_0+m_k) W_k` a massive body is displaced by
+    `dt (p − m_i/(m_0+m_i) W_i)`, a test particle by `dt p`; slot 0, masses, velocities untouched.
+    PARTIAL for conservation: that this displacement conserves L and P needs the WHDS canonical momenta
+    (`W_i` = barycentric-scaled velocities) and their decomposition of L, which is not in the Lean development;
+    for WHDS the conservation of the jump step remains asserted by the primitive-by-primitive search. -/
+theorem c04_whds_jump_model_partial (N nAct nReal : Nat) (hN : 1 ≤ N) (hA1 : 1 ≤ nAct) (hA : nAct ≤ N)
+    (m : Nat → K) (τ : K) (s : DS K) :
+    RV.WHJump.jumpWHDS τ nAct nReal (dsArr N m s) = dsArr N m { s with Q := whdsQ nAct nReal m τ s } :=
+  jumpWHDS_model N nAct nReal hN hA1 hA m τ s
+
+open RV.WH RV.WHJump in
+/-- non-vacuity: star + massive planet + one test particle (`N_active = 2 < N = 3`) over ℚ meets the
+    hypotheses; the test particle (slot 2) is displaced by `(dt/m_0) m_1 W_1` although it is not in the sum. -/
+example : ∃ (m : Nat → ℚ) (s : DS ℚ), (1 ≤ 3 ∧ 2 ≤ 3) ∧
+    (RV.WHJump.jumpDH (1 : ℚ) 2 3 (dsArr 3 m s))[2]?
+      = some ⟨m 2, s.Q 2 + ((1 : ℚ) / m 0) • ∑ k ∈ Finset.Ico 1 2, m k • s.W k, s.W 2⟩ := by
+  refine ⟨fun i => if i = 0 then 1 else if i = 1 then 1 / 1000 else 0,
+    ⟨0, 0, fun i => ⟨(i : ℚ), 0, 0⟩, fun i => ⟨0, (i : ℚ), 0⟩⟩, ⟨by decide, by decide⟩, ?_⟩
+  rw [jumpDH_model 3 2 3 (by decide) (by decide)]
+  rw [dsArr_get 3 _ _ (by decide : 2 < 3)]
+  simp
 
 /-! ### TRACE: the centre of mass across a rejected step -/
 
